@@ -1,0 +1,36 @@
+//go:build verif
+
+package server
+
+// Verification hooks (build tag "verif" only): let an external harness step the
+// health checker deterministically instead of waiting for wall-clock intervals.
+
+import (
+	"time"
+
+	"github.com/sassoftware/relic/v8/token"
+)
+
+// VerifHealthCheckOnce runs one health check exactly as the background loop does.
+func (s *Server) VerifHealthCheckOnce() bool {
+	return s.healthCheck()
+}
+
+// VerifAgeLastPing makes the last completed health check look d older.
+func VerifAgeLastPing(d time.Duration) {
+	healthMu.Lock()
+	healthLastPing = healthLastPing.Add(-d)
+	healthMu.Unlock()
+}
+
+// VerifHealthState returns the health counter and the time of the last completed check.
+func VerifHealthState() (int, time.Time) {
+	healthMu.Lock()
+	defer healthMu.Unlock()
+	return healthStatus, healthLastPing
+}
+
+// VerifTokens exposes the opened (wrapped) tokens by name.
+func (s *Server) VerifTokens() map[string]token.Token {
+	return s.tokens
+}
